@@ -290,6 +290,13 @@ def _make_reduction_lambda(
     """
     new_shape, reduction_axes = _normalize_reduction_axes(a.shape, axis)
     del axis
+
+    if not reduction_axes:
+        # Nothing to reduce over (a 0-d array, or axis=()): as in numpy, the
+        # result is the array itself. This also avoids emitting reductions
+        # without reduction variables, which loopy cannot realize when nested.
+        return a
+
     indices, redn_bounds = _get_reduction_indices_bounds(a.shape,
                                                          reduction_axes)
 
